@@ -129,6 +129,123 @@ def prefix_offsets(P, R, rule='C13.TAB.1'):
     R.floor(rule, 2, 'IPv4 branch and IPv6-embedded branch')
 
 
+def prefix_width(P, R, rule='C13.TAB.2'):
+    """A prefix length runs from 0 to 128: whatever holds the length handed to the mask test (a rule's field, a
+    local) can represent 128 - a narrower bit-field silently turns /128 (every plain host address) into /0."""
+    n = 0
+    for f in P.fns.values():
+        if f.unit.startswith('tests/'):
+            continue
+        for s in f.calls('irc_check_mask'):
+            if len(s.ev['args']) < 3:
+                continue
+            x = s.ev['args'][2]
+            n += 1
+            if isinstance(x, dict) and x.get('k') == 'mem':
+                fd = P.record_field(x.get('rec'), x['field']) or {}
+                ok = not fd.get('bitfield') or fd.get('bitwidth', 0) >= 8
+                R.ob(rule, ok, s, 'the prefix length %s can hold 128 (%s)' % (sx(x), 'bit-field of %s bits' % fd.get('bitwidth') if fd.get('bitfield') else fd.get('t')), key='prefix-width:%s' % x['field'])
+            else:
+                R.ob(rule, True, s, 'the prefix length %s is a full-width value' % sx(x), key='prefix-width:expr', nontrivial=False)
+    if n == 0:
+        R.note('%s: no caller of irc_check_mask outside the tests' % rule)
+
+
+def fold_const(e, env):
+    """constant folding of an integer expression under known values of variables / `literal[index]` reads"""
+    if not isinstance(e, dict):
+        return None
+    c = const_of(e)
+    if isinstance(c, int):
+        return c
+    k = e.get('k')
+    if k == 'var' and e['name'] in env:
+        v = env[e['name']]
+        return v if isinstance(v, int) else None
+    if k == 'idx' and is_var(e.get('base')) and isinstance(env.get(e['base']['name']), str):
+        i = fold_const(e['index'], env)
+        lit = env[e['base']['name']]
+        if i is None or not (0 <= i <= len(lit)):
+            return None
+        return ord(lit[i]) if i < len(lit) else 0
+    if k == 'callref' and e.get('callee') in ('toupper', 'tolower') and e.get('args'):
+        v = fold_const(e['args'][0], env)
+        if v is None:
+            return None
+        ch = chr(v & 255)
+        return ord(ch.upper() if e['callee'] == 'toupper' else ch.lower()) if ch.isascii() and ch.isalpha() else v
+    if k == 'un' and e.get('op') == '~':
+        v = fold_const(e['e'], env)
+        return None if v is None else ~v
+    if k == 'bin' and e.get('op') in ('&', '|', '^', '+', '-', '<<', '>>'):
+        a, b = fold_const(e['l'], env), fold_const(e['r'], env)
+        if a is None or b is None:
+            return None
+        return {'&': a & b, '|': a | b, '^': a ^ b, '+': a + b, '-': a - b, '<<': a << b, '>>': a >> b}[e['op']]
+    return None
+
+
+def hex_table(P, R, rule='C13.TAB.3'):
+    """Group values and hex escapes are read through the character table: folding the table's initialiser over its
+    literal digit string, every hexadecimal digit - in both letter cases - carries the hex-digit class and its value."""
+    ci = P.fn('ctype_init')
+    if ci is None:
+        raise AnalysisBroken('ctype_init has vanished')
+    lits = {s.ev['var']: s.ev['init']['v'] for s in ci.sites() if s.ev['k'] == 'decl' and s.ev.get('static') and (s.ev.get('init') or {}).get('k') == 'str'}
+    hexlit = [v for v, t in lits.items() if t.lower().startswith('0123456789abcdef')]
+    if not hexlit:
+        R.note('%s: no literal digit string in ctype_init; table not judged' % rule)
+        return
+    hv = hexlit[0]
+    table = {}
+    undecided = 0
+    for s in ci.stores():
+        lhs = s.ev.get('lhs') or {}
+        if not (s.ev['k'] == 'store' and lhs.get('k') == 'idx' and is_var(lhs.get('base'), 'char_types')):
+            continue
+        if not any(is_var(x.get('base'), hv) for x in walk(lhs['index']) if x.get('k') == 'idx'):
+            continue
+        ivs = sorted({x['index']['name'] for x in walk(lhs['index']) if x.get('k') == 'idx' and is_var(x.get('base'), hv) and is_var(x.get('index'))})
+        if len(ivs) != 1:
+            undecided += 1
+            continue
+        iv = ivs[0]
+        for i in range(len(lits[hv])):
+            env = {hv: lits[hv], iv: i}
+            # guards on the index that hold at this store
+            feasible = True
+            for g in ci.guards(s.bid):
+                a, b = fold_const(g[0], env), fold_const(g[2], env)
+                if a is None or b is None:
+                    continue
+                if not {'==': a == b, '!=': a != b, '<': a < b, '<=': a <= b, '>': a > b, '>=': a >= b}.get(g[1], True):
+                    feasible = False
+            if not feasible:
+                continue
+            val = s.ev.get('rhs')
+            if is_var(val) and ci.single_def(val['name']):
+                val = ci.single_def(val['name'])[1]
+            idx = fold_const(lhs['index'], env)
+            v = fold_const(val, env)
+            if idx is None or v is None:
+                undecided += 1
+                continue
+            table[idx & 255] = v
+    if undecided or not table:
+        R.note('%s: the table initialiser could not be folded over its digit string (%d undecided stores); not judged' % (rule, undecided))
+        return
+    xd = 32
+    for t in ci.sites():
+        pass
+    bad = []
+    for ch in '0123456789abcdefABCDEF':
+        v = table.get(ord(ch))
+        if v is None or (v & 15) != int(ch, 16):
+            bad.append('%r -> %s' % (ch, v))
+    cls = {table.get(ord(ch), 0) & ~15 for ch in '0123456789abcdefABCDEF'}
+    R.ob(rule, not bad and len(cls) == 1, ci, 'every hexadecimal digit carries its value in the character table, with one common class%s' % ((' (wrong: %s)' % ', '.join(bad)) if bad else ''), key='hex-table')
+
+
 def run(P, R, tier):
     fns = scope(P)
     if len(fns) < 3:
@@ -139,5 +256,7 @@ def run(P, R, tier):
     R.floor('C13.SHF.1', 3, 'octet shifts and the partial-word shift of the mask test')
     n = cursor_rules(P, R, fns)
     prefix_offsets(P, R)
+    prefix_width(P, R)
+    hex_table(P, R)
     R.floor('C13.CUR.1', 2, 'the parser and its helper scan the input with an index cursor')
     return EXPLANATION, ASSUMPTIONS, {'functions_analysed': [f.name for f in fns], 'subscripts': n_idx, 'block_copies': n_cp, 'shifts': n_sh, 'cursors': n}
